@@ -9,7 +9,7 @@ from harness import core
 from harness.core import Outcome
 
 ID = "C13"
-LEAN_TARGETS = ["BeyondVerif.Props.C13", "BeyondVerif.Witness.C13"]
+LEAN_TARGETS = ["BeyondVerif.Props.C13", "BeyondVerif.Props.C13Parts", "BeyondVerif.Props.C13Opm", "BeyondVerif.Witness.C13"]
 THEOREMS = [
     "BeyondVerif.C13.recurseKids_group",
     "BeyondVerif.C13.iterGroup_promote",
@@ -24,6 +24,15 @@ THEOREMS = [
     "BeyondVerif.C13.man_xml_roundtrip",
     "BeyondVerif.C13.mans_xml_roundtrip",
     "BeyondVerif.C13.manFrameBack_ok",
+    "BeyondVerif.C13.recurseKids_group0",
+    "BeyondVerif.C13.ud_xml_roundtrip",
+    "BeyondVerif.C13.sv_xml_roundtrip",
+    "BeyondVerif.C13.cov_xml_roundtrip",
+    "BeyondVerif.C13.covFrameBack_ok",
+    "BeyondVerif.C13.opm_data_kids",
+    "BeyondVerif.C13.read_group_dicts",
+    "BeyondVerif.C13.opm_xml_load_dump_id",
+    "BeyondVerif.C13.opmEx_wf",
     "BeyondVerif.C13W.oem_xml_one_point_ok",
     "BeyondVerif.C13W.oem_kvn_one_point_ok",
     "BeyondVerif.C13W.oem_xml_two_points_ok",
